@@ -412,6 +412,9 @@ where
 
     // 1. Get mutable access to the `Arc<CacheEntry<V>>` in the map.
     if let Some(entry_arc) = guard.get_mut(key) {
+      if entry_arc.is_expired(self.shared.time_to_idle) {
+        return ComputeResult::NotFound; // expired, not yet collected
+      }
       // 2. Try to get mutable access to the `CacheEntry` *inside* the Arc.
       //    This should succeed if the entry is only in the map.
       if let Some(entry) = Arc::get_mut(entry_arc) {
